@@ -6,4 +6,6 @@ from harness.build import Scratch
 def run(chk):
     with Scratch() as sc:
         motion.run(chk, sc)
+        from harness import ecmc_design
+        ecmc_design.design_for(chk, sc, "C07")
         runlevel.run_for(chk, "C07", sc)
